@@ -22,6 +22,7 @@ class C04(DocCheck):
 
     def verdict(self, case, d, t, p, err, a, cnt):
         cnt['span_obligations'] = a['n_gen']
+        cnt['flow_separator_obligations'] = a.get('n_sep', 0)
         reps = [k for k in ('usermac', 'usermac2', 'usermacopt', 'gls', 'theorem', 'twice_ext', 'ref', 'cite')
                 if d.kinds.get(k, 0) >= 2]
         if reps:
@@ -35,7 +36,7 @@ class C04(DocCheck):
 
     def quotas(self, tier):
         q = super().quotas(tier)
-        q.update({'span_obligations': 30000, 'docs_with_repeated_use': 500})
+        q.update({'span_obligations': 30000, 'flow_separator_obligations': 5000, 'docs_with_repeated_use': 500})
         return q
 
 
